@@ -332,6 +332,7 @@ func main() {
 	e := &env{db: db}
 	out := lib.NewOut(a.Out, "C02")
 	out.PerFile = 100
+	out.TheoremApplies = true
 
 	add := func(kind string, in Input) {
 		o := e.run(in)
